@@ -972,8 +972,11 @@ pub fn run_c15(cfg: &Cfg) {
             if r2 != base {
                 rep.fail("Bilinear: scaling x by cx and y by cy (axes and queries) changes the result (exact run)", obj(vec![("base", sc.to_json()), ("cx", s(format!("{:?}", cx))), ("cy", s(format!("{:?}", cy)))]));
             }
-            if !bits_eq(&v2.run::<f64>(), &basef) {
-                rep.fail("Bilinear: scaling the axes by powers of two is not bit-for-bit (f64)", obj(vec![("base", sc.to_json())]));
+            // bit-for-bit only where no intermediate can be subnormal: gradual underflow rounds to a fixed absolute
+            // grid, which a change of units does not preserve (the exact comparison above has no such restriction)
+            let tiny2 = tiny || v2.queries.iter().any(|&(a, b)| (a != 0.0 && a.abs() < 1e-200) || (b != 0.0 && b.abs() < 1e-200));
+            if !tiny2 && !bits_eq(&v2.run::<f64>(), &basef) {
+                rep.fail("Bilinear: scaling the axes by powers of two is not bit-for-bit (f64)", obj(vec![("base", sc.to_json()), ("cx", s(format!("{:?}", cx))), ("cy", s(format!("{:?}", cy)))]));
             }
             rep.evaluations += 4;
             let term = format!("({}, {})", v2.to_coq(&qc), outs_coq(&r2.0, &r2.1, &|v| v.to_coq_qc()));
@@ -1041,7 +1044,8 @@ pub fn run_c15(cfg: &Cfg) {
             rep.fail("multiplying the axis and the queries by c > 0 (boundary derivatives converted) changes the result (exact run)", obj(vec![("base", sc.to_json()), ("c", s(format!("{:?}", ca)))]));
         }
         rep.count("bitwise:axis-scale");
-        if !bits_eq(&v2.run::<f64>(), &basef) {
+        let tiny2 = tiny || v2.queries.iter().chain(v2.axis_vals().iter()).any(|&a| a != 0.0 && a.abs() < 1e-200);
+        if !tiny2 && !bits_eq(&v2.run::<f64>(), &basef) {
             rep.fail("scaling axis and queries by a power of two is not bit-for-bit (f64)", obj(vec![("base", sc.to_json()), ("c", s(format!("{:?}", ca)))]));
         }
         // (3) shift of axis and queries on the common dyadic grid
